@@ -326,4 +326,18 @@ MUTATIONS += [
 
 HARMLESS = [
     dict(id="H-C05-trees-symlink-continue", prop="C05", file=CK, old="        for node in tree.nodes {\n            match node.node_type {", new="        for node in tree.nodes {\n            if node.node_type == NodeType::Symlink {\n                continue;\n            }\n            match node.node_type {"),
+    # independent statements reordered
+    dict(id="H-C14-addfile-reorder-locals", prop="C14", file=RS, old="        let file_idx = self.names.len();\n        self.names.push(name);\n        let mut file_pos = 0;\n        let mut has_unmatched = false;", new="        let mut has_unmatched = false;\n        let mut file_pos = 0;\n        let file_idx = self.names.len();\n        self.names.push(name);"),
+    # renamed local
+    dict(id="H-C05-packslist-renamed-local", prop="C05", file=CK, old="    let mut packs_from_be = be.list_with_size(FileType::Pack)?;\n    packs_from_be.sort_by_key(|item| item.0);\n    for (id, size) in packs_from_be {", new="    let mut listed = be.list_with_size(FileType::Pack)?;\n    listed.sort_by_key(|item| item.0);\n    for (id, size) in listed {"),
+    # progress call moved
+    dict(id="H-C03-archive-progress-finish-earlier", prop="C03", file=ARF, old="        self.indexer.write().unwrap().finalize()?;\n\n        summary.finalize(&self.snap.time);", new="        self.indexer.write().unwrap().finalize()?;\n        p.finish();\n\n        summary.finalize(&self.snap.time);"),
+    # equivalent condition
+    dict(id="H-C19-write-condition-reordered", prop="C19", file=CAF, old="        if (cacheable || tpe.is_cacheable())\n            && let Err(err) = self.cache.write_bytes(tpe, id, &content)", new="        if (tpe.is_cacheable() || cacheable)\n            && let Err(err) = self.cache.write_bytes(tpe, id, &content)"),
+    # early return instead of else
+    dict(id="H-C07-packer-addraw-early-return", prop="C07", file=PK, old="        if self.indexer.read().unwrap().has(self.blob_type, id) {\n            Ok(())\n        } else {\n            self.raw_packer\n                .write()\n                .unwrap()\n                .add_raw(data, id, data_len, uncompressed_length)\n        }", new="        if self.indexer.read().unwrap().has(self.blob_type, id) {\n            return Ok(());\n        }\n        self.raw_packer\n            .write()\n            .unwrap()\n            .add_raw(data, id, data_len, uncompressed_length)"),
+    # extra logging
+    dict(id="H-C02-exec-extra-log", prop="C02", file=PR, old="                PackToDo::Delete => delete_pack(&pack),", new="                PackToDo::Delete => {\n                    debug!(\"deleting pack {}\", pack.id);\n                    delete_pack(&pack);\n                }"),
+    # equivalent comparison
+    dict(id="H-C18-fromconfig-match-order", prop="C18", file=CHF, old="            Chunker::FixedSize => Self::FixedSize(FixedSizeChunkIter::new(\n                config.chunk_size(),\n                reader,\n                size_hint,\n            )),", new="            Chunker::FixedSize => {\n                let size = config.chunk_size();\n                Self::FixedSize(FixedSizeChunkIter::new(size, reader, size_hint))\n            }"),
 ]
